@@ -107,6 +107,7 @@ def record(sc):
     ver = dict(S=0, d=0)
     workdir = sc["workdir"]
     events = []
+    kept = {}
     name = "pool_%d_%d" % (os.getpid(), random.getrandbits(40))
     if sc["pool"] == "array":
         pool = elfi.ArrayPool(list(sc["stored"]), name=name, prefix=workdir)
@@ -115,7 +116,7 @@ def record(sc):
     try:
         for a in sc["acts"]:
             e = dict(a=a[0], n=a[1] if len(a) > 1 and isinstance(a[1], str) else "", k=a[1] if a[0] == "run" else 0,
-                     raised="", res="", twin="", held0={}, calls=[], pool={})
+                     raised="", res="", twin="", held0={}, calls=[], pool={}, req=sorted(set(["d", "t1", "t2"] + list(sc["extra"]))), sticky=[])
             try:
                 with time_limit(300):
                     if a[0] == "run":
@@ -124,7 +125,15 @@ def record(sc):
                         e["held0"] = {n: sorted(int(i) for i in range(64) if pool.stores.get(n) is not None and i in pool.stores[n])
                                       for n in pool.stores}
                         del CALLS[:]
-                        r = elfi.Rejection(m["d"], batch_size=sc["bs"], seed=sc["seed"], pool=pool, output_names=sc["extra"])
+                        # keep_sampler: ONE sampler object serves consecutive runs (while neither the model nor the pool object
+                        # was exchanged); otherwise a new sampler per run
+                        if sc.get("keep_sampler") and kept.get("r") is not None and kept.get("pool") is pool and kept.get("ver") == dict(ver):
+                            r = kept["r"]
+                        else:
+                            r = elfi.Rejection(m["d"], batch_size=sc["bs"], seed=sc["seed"], pool=pool, output_names=list(sc["extra"]))
+                            kept.update(r=r, pool=pool, ver=dict(ver), sticky=set())
+                        e["sticky"] = sorted(kept["sticky"])
+                        kept["sticky"] |= set(pool.stores)
                         res = r.sample(sc["n"], n_sim=k * sc["bs"], bar=False)
                         e["calls"] = [list(c) for c in CALLS]
                         e["res"] = res_digest(res)
@@ -286,8 +295,13 @@ def scenarios(ctx):
             for _ in range(reps):
                 bs = rnd.choice([1, 2, 3])
                 out.append(dict(stored=stored, pool=pool_kind, bs=bs, n=rnd.randint(1, bs), seed=rnd.randint(1, 2 ** 31 - 1),
-                                extra=rnd.choice([[], ["S"], ["S", "sim"]]),
+                                keep_sampler=rnd.random() < 0.5, extra=rnd.choice([[], ["S"], ["S", "sim"]]),
                                 acts=random_history(rnd, stored, pool_kind, rnd.randint(3, 6))))
+    # one sampler object: fill, rerun with every batch held, remove a store that is not a requested output, rerun
+    for stored, gone in ((["sim", "S"], "S"), (["sim", "S", "d"], "sim"), (["S", "d"], "S")):
+        k = rnd.randint(2, 3)
+        out.append(dict(stored=stored, pool="output", bs=2, n=2, seed=rnd.randint(1, 2 ** 31 - 1), extra=[], keep_sampler=True,
+                        acts=[["run", k], ["run", k], ["remove", gone], ["run", k]]))
     # on-disk pools opened from a pickle that is older than the data files (saved, used further, not saved again)
     for stored in (STATED if not ctx.quick else [["sim"], ["S", "d"], ["sim", "S", "d", "t1", "t2"]]):
         k1, k2, k3 = rnd.randint(1, 2), rnd.randint(3, 4), rnd.randint(5, 7)
